@@ -4,7 +4,7 @@
 CONSTANTS
     Impl = "intended"
     Tier = "quick"
-    Fams = {"shapes", "single", "dep", "names", "totals", "pairs", "cross", "mix", "update"}
+    Fams = {"shapes", "single", "dep", "names", "totals", "pairs", "cross", "mix", "update", "trunc"}
     Denom = "uakt"
     DepositDenom = "uakt"
     OtherDenom = "uatom"
